@@ -14,6 +14,7 @@ import (
 	"github.com/bfenetworks/bfe/bfe_basic"
 	"github.com/bfenetworks/bfe/bfe_basic/action"
 	"github.com/bfenetworks/bfe/bfe_http"
+	"github.com/bfenetworks/bfe/bfe_module"
 )
 
 // VerifPrison drives prisonRule.recordAndCheck (C53) with a virtual clock: the rule reads time.Now(), so the
@@ -68,18 +69,20 @@ func lruKeysOldestFirst(c *lru_cache.LRUCache) []interface{} {
 
 // Advance emulates dt nanoseconds passing.  Entries are touched from the least to the most recently used one, so
 // that the recency order of both dictionaries (which decides evictions) is exactly what it was.
-func (v *VerifPrison) Advance(dt int64) {
+func (v *VerifPrison) Advance(dt int64) { shiftRule(v.r, dt) }
+
+func shiftRule(r *prisonRule, dt int64) {
 	if dt == 0 {
 		return
 	}
-	for _, k := range lruKeysOldestFirst(v.r.accessDict) {
-		if x, ok := v.r.accessDict.Get(k); ok {
+	for _, k := range lruKeysOldestFirst(r.accessDict) {
+		if x, ok := r.accessDict.Get(k); ok {
 			atomic.AddInt64(&x.(*AccessCounter).startTime, -dt)
 		}
 	}
-	for _, k := range lruKeysOldestFirst(v.r.prisonDict) {
-		if x, ok := v.r.prisonDict.Get(k); ok {
-			v.r.prisonDict.Add(k, x.(int64)-dt)
+	for _, k := range lruKeysOldestFirst(r.prisonDict) {
+		if x, ok := r.prisonDict.Get(k); ok {
+			r.prisonDict.Add(k, x.(int64)-dt)
 		}
 	}
 }
@@ -95,4 +98,76 @@ func (v *VerifPrison) Request(key int) bool {
 		req.ClientAddr = &net.TCPAddr{IP: net.IPv4(10, byte(key>>16), byte(key>>8), byte(key)), Port: 1000}
 	}
 	return v.r.recordAndCheck(req)
+}
+
+// ---- several rules per product: the module's own table (productTable.load) and processPrisonRules
+
+type VerifRuleSpec struct {
+	CheckPeriodS, StayPeriodS int64
+	Threshold                 int32
+	Match                     bool
+	Cmd                       string
+}
+
+type VerifModule struct{ m *ModulePrison }
+
+func verifConfList(prefix string, specs []VerifRuleSpec) *PrisonRuleConfList {
+	l := PrisonRuleConfList{}
+	for i := range specs {
+		sp := specs[i]
+		c := verifConf(sp.CheckPeriodS, sp.StayPeriodS, sp.Threshold, 1000, 1000)
+		cond := "default_t()"
+		if !sp.Match {
+			cond = "!default_t()"
+		}
+		name := prefix + string(rune('a'+i))
+		c.Cond = &cond
+		c.Name = &name
+		c.Action = &action.Action{Cmd: sp.Cmd}
+		l = append(l, &c)
+	}
+	return &l
+}
+
+// VerifNewModule loads global and product ("p") rule lists into a fresh module through productTable.load.
+func VerifNewModule(global, product []VerifRuleSpec) *VerifModule {
+	m := NewModulePrison()
+	version := "v"
+	cfg := map[string]*PrisonRuleConfList{bfe_basic.GlobalProduct: verifConfList("g", global), "p": verifConfList("p", product)}
+	if err := m.productTable.load(ProductRuleConf{Version: &version, Config: &cfg}); err != nil {
+		panic(err)
+	}
+	return &VerifModule{m: m}
+}
+
+// Advance moves the virtual clock of every rule of every product.
+func (v *VerifModule) Advance(dt int64) {
+	for _, rules := range v.m.productTable.getTable() {
+		for i := range rules.ruleList {
+			shiftRule(&rules.ruleList[i], dt)
+		}
+	}
+}
+
+// Request runs the module's request callback; returns the handler code (0 go on, 1 close, 2 finish, -1 other) and
+// the increments of the AllChecked / AllPrison counters.
+func (v *VerifModule) Request(key int) (int, int64, int64) {
+	req := &bfe_basic.Request{HttpRequest: &bfe_http.Request{Header: make(bfe_http.Header)}}
+	req.Context = make(map[interface{}]interface{})
+	req.Route.Product = "p"
+	if key >= 0 {
+		req.ClientAddr = &net.TCPAddr{IP: net.IPv4(10, byte(key>>16), byte(key>>8), byte(key)), Port: 1000}
+	}
+	c0, p0 := v.m.state.AllChecked.Get(), v.m.state.AllPrison.Get()
+	ret, _ := v.m.prisonHandler(req)
+	code := -1
+	switch ret {
+	case bfe_module.BfeHandlerGoOn:
+		code = 0
+	case bfe_module.BfeHandlerClose:
+		code = 1
+	case bfe_module.BfeHandlerFinish:
+		code = 2
+	}
+	return code, v.m.state.AllChecked.Get() - c0, v.m.state.AllPrison.Get() - p0
 }
